@@ -6,6 +6,7 @@
   the theorems say what that acceptance means, for every history, trace set and order.
 -/
 import ZanVerif.Node.LinCert
+import ZanVerif.Node.CrashCert
 
 namespace Z.Props.C04
 open Z.Lin Z.LinSpec Z.LinCert
@@ -56,5 +57,25 @@ theorem C04_checker_rejects :
     checkCert exH exT [exH[0], exH[1], exH[2], exH[4]] = false ∧
     checkCert exH ([.app ⟨6, 2, [1], 0⟩] :: exT) exL = false ∧
     checkCert exH ([.app ⟨6, 2, [2], 0⟩, .app ⟨6, 2, [2], 0⟩] :: exT) exL = false := by decide
+
+/-! ### kill -9 in the middle of a history (protocol `crash`, 3-process runs with `killat`)
+
+One client writes to the leader of a real 3-process group; one replica (the leader or a follower) is killed with
+SIGKILL in the middle of the history, the client goes on (with the new leader), the victim comes back; after the group
+has settled EVERY replica is dumped.  The driver answers "ok" exactly when `CrashCert.checkCrash` accepts every dump. -/
+
+/-- every replica of an accepted run serves the sequential replay of ONE sub-sequence of the writes in the order
+    sent (each write at most once, nothing that was never sent) that contains every acknowledged write, and along it
+    every acknowledged reply is the specified one -/
+theorem C04_kill9_acked_never_lost (ws : List Z.CrashCert.W) (ds : List Store)
+    (h : ∀ d ∈ ds, Z.CrashCert.checkCrash ws d = true) :
+    ∀ d ∈ ds, ∃ l : List Z.CrashCert.W, run [] (l.map (·.op)) = d ∧ l.Sublist ws ∧
+      (∀ w ∈ ws, w.st = .ack → w ∈ l) :=
+  fun d hd => Z.CrashCert.recovered_has_acked (Z.CrashCert.checkCrash_sound ws d (h d hd))
+
+example : ∀ d ∈ [[(0, Val.str 1001), (3, Val.set [4])], [(0, Val.str 1002), (2, Val.list [3]), (3, Val.set [4])]],
+    ∃ l : List Z.CrashCert.W, run [] (l.map (·.op)) = d ∧ l.Sublist Z.CrashCert.exW ∧
+      (∀ w ∈ Z.CrashCert.exW, w.st = .ack → w ∈ l) :=
+  C04_kill9_acked_never_lost _ _ (by decide)
 
 end Z.Props.C04
